@@ -196,6 +196,7 @@ fn w_common() -> Vec<(K, u32)> {
         (K::Ping, 1),
         (K::Opaque, 1),
         (K::ReReg, 1),
+        (K::SlowPeer, 1),
     ]
 }
 
@@ -214,7 +215,7 @@ pub(crate) fn profile_for(id: &str) -> Profile {
         "C10" => p.w(&[(K::BanExcept, 5), (K::Privmsg, 22), (K::Notice, 14), (K::ModeChan, 16), (K::Away, 5), (K::Nick, 5), (K::Part, 4), (K::Join, 10), (K::Kick, 3)]),
         "C11" => p.w(&[(K::Oper, 10), (K::ModeUser, 14), (K::Kill, 6), (K::Wallops, 7), (K::Stats, 4), (K::Nick, 8), (K::Whois, 5), (K::Who, 3), (K::Userhost, 3), (K::Die, 1), (K::Register, 6), (K::Lusers, 2)]),
         "C15" => p.w(&[(K::Nick, 20), (K::Names, 6), (K::ModeQuery, 5), (K::Whois, 6), (K::Whowas, 5), (K::Wallops, 4), (K::Oper, 3), (K::ModeUser, 5), (K::Away, 4), (K::Invite, 6), (K::Privmsg, 8), (K::Join, 12), (K::ModeChan, 10), (K::Register, 5), (K::Kill, 2), (K::Userhost, 2)]),
-        "C16" => p.w(&[(K::Join, 20), (K::Part, 14), (K::Kick, 8), (K::Quit, 4), (K::Eof, 3), (K::Reset, 3), (K::Kill, 3), (K::Oper, 3), (K::List, 6), (K::Lusers, 4), (K::ModeQuery, 6), (K::Names, 5), (K::Topic, 5), (K::TopicQuery, 3), (K::ModeChan, 10), (K::Register, 6)]),
+        "C16" => p.w(&[(K::ModeList, 3), (K::Join, 20), (K::Part, 14), (K::Kick, 8), (K::Quit, 4), (K::Eof, 3), (K::Reset, 3), (K::Kill, 3), (K::Oper, 3), (K::List, 6), (K::Lusers, 4), (K::ModeQuery, 6), (K::Names, 5), (K::Topic, 5), (K::TopicQuery, 3), (K::ModeChan, 10), (K::Register, 6)]),
         "C19" => p.w(&[(K::Lusers, 10), (K::Ison, 8), (K::Userhost, 8), (K::ModeUser, 12), (K::Oper, 8), (K::Register, 12), (K::NewConn, 8), (K::Quit, 4), (K::Eof, 4), (K::Reset, 4), (K::Kill, 3), (K::Away, 4), (K::Nick, 5), (K::Join, 8), (K::Part, 5), (K::EofMidLine, 1), (K::HalfOpen, 1)]),
         "C03" => {
             let mut p = p.w(&[(K::Gated, 30), (K::CapStuff, 14), (K::Register, 10), (K::RegPiece, 20), (K::CompletionCollision, 4), (K::NewConn, 6), (K::Eof, 2), (K::Quit, 2), (K::Ison, 4), (K::Names, 4), (K::Lusers, 3)]);
@@ -234,9 +235,9 @@ pub(crate) fn profile_for(id: &str) -> Profile {
             p.ipv6 = true;
             p
         }
-        "C20" => p.w(&[(K::Register, 10), (K::RegPiece, 6), (K::Join, 20), (K::JoinMulti, 4), (K::Oper, 8), (K::ModeQuery, 6), (K::List, 5), (K::Motd, 5), (K::ModeUser, 4), (K::Privmsg, 8), (K::Topic, 3), (K::TopicQuery, 3), (K::Whois, 4), (K::Wallops, 2), (K::Lusers, 3)]),
-        "C18" => p.w(&[(K::Join, 16), (K::Part, 4), (K::ModeChan, 6), (K::Nick, 3), (K::Privmsg, 5), (K::Topic, 2), (K::Away, 2), (K::ModeUser, 2)]),
-        "C12" => p.w(&[(K::Join, 14), (K::Part, 5), (K::Privmsg, 6), (K::Topic, 3), (K::Nick, 3), (K::ModeUser, 3), (K::Away, 2), (K::Names, 2), (K::Who, 2)]),
+        "C20" => p.w(&[(K::ModeList, 4), (K::Register, 10), (K::RegPiece, 6), (K::Join, 20), (K::JoinMulti, 4), (K::Oper, 8), (K::ModeQuery, 6), (K::List, 5), (K::Motd, 5), (K::ModeUser, 4), (K::Privmsg, 8), (K::Topic, 3), (K::TopicQuery, 3), (K::Whois, 4), (K::Wallops, 2), (K::Lusers, 3)]),
+        "C18" => p.w(&[(K::SlowPeer, 0), (K::Join, 16), (K::Part, 4), (K::ModeChan, 6), (K::Nick, 3), (K::Privmsg, 5), (K::Topic, 2), (K::Away, 2), (K::ModeUser, 2)]),
+        "C12" => p.w(&[(K::SlowPeer, 0), (K::Join, 14), (K::Part, 5), (K::Privmsg, 6), (K::Topic, 3), (K::Nick, 3), (K::ModeUser, 3), (K::Away, 2), (K::Names, 2), (K::Who, 2)]),
         "C06" => p.w(&[(K::Quit, 6), (K::Eof, 6), (K::Reset, 6), (K::EofMidLine, 3), (K::Kill, 4), (K::HalfOpen, 2), (K::Oper, 4), (K::Register, 8), (K::Whowas, 5), (K::Invite, 5), (K::ModeUser, 5), (K::Wallops, 3), (K::Lusers, 4), (K::Ison, 4), (K::ModeQuery, 5), (K::List, 3)]),
         _ => p,
     }
@@ -254,7 +255,7 @@ impl Check for StepCheck {
     }
     fn rule(&self) -> String {
         "each run: a seeded configuration (operators, predefined channels, default modes, max_joins, passwords) and a model-guided multi-client history of 25-70 steps \
-         (one command or transport fault per step, then a quiescence barrier; in the thorough tier every second history has 70-160 steps, 5-9 connections and larger name pools; a fifth of the histories run over a fragmenting transport: capped reads/writes, lines arriving in two segments); after every step every line on every connection is compared with the reference model. \
+         (one command or transport fault per step, then a quiescence barrier; in the thorough tier every second history has 70-160 steps, 5-9 connections and larger name pools; a fifth of the histories run over a fragmenting transport: capped reads/writes, lines arriving in two segments; in another fifth some steps send two or three commands of one connection in one segment); after every step every line on every connection is compared with the reference model. \
          A case is distinct+nontrivial by (command, outcome cell reported by the model incl. ranks/mode flags involved, #users bucket, #channels bucket); pure no-ops are not counted."
             .into()
     }
@@ -278,6 +279,7 @@ impl Check for StepCheck {
         }
         let mut g = Gen::new(r.next_u64(), &cfg, &prof);
         g.frag = r.fork(11).chance(1, 5);
+        g.pipe = r.fork(12).chance(1, 5);
         g.setup();
         g.run();
         Trace { check: self.id.into(), seed: 0, run_seed, config: cfg, params: HashMap::new(), actions: g.actions }
